@@ -107,7 +107,9 @@ def make_meaning(rnd, pool, clients, sys_targets=False):
     for i in range(5):
         kvs = [{"k": rnd.choice(pool), "v": "w%d" % rnd.randint(0, 3)} for _ in range(rnd.randint(1, 3))]
         if sys_targets and rnd.random() < 0.6:
-            kvs.append({"k": rnd.choice([["$SYS", "s"], ["$SYS", "clients", rnd.choice(clients), "graveGoods"], [""], ["a", "?"]]),
+            # (a will onto the client's OWN $SYS sub tree would survive the session under the retired connection id,
+            #  which the model - one identity per client name - cannot tell from the next connection's: not generated)
+            kvs.append({"k": rnd.choice([["$SYS", "s"], ["$SYS", "clients", "c9", "graveGoods"], [""], ["a", "?"]]),
                         "v": "evil"})
         kvs.append({"k": ["__lw", "t%d" % i], "v": "u"})
         meaning["lw%d" % i] = {"gg": [], "lw": kvs}
@@ -277,6 +279,11 @@ def gen_c09(rnd, n):
     for i in range(5):
         hdr["meaning"]["lw%d" % i] = {"gg": [], "lw": [{"k": ["lwk", "t%d" % i, "k%d" % j], "v": "w%d" % rnd.randint(0, 3)}
                                                          for j in range(rnd.randint(1, 3))]}
+    # grave goods that cover willed keys: the order "bury, then publish the wills" is observable
+    for i in range(5):
+        if rnd.random() < 0.6:
+            g = hdr["meaning"]["gg%d" % i]["gg"]
+            g.insert(rnd.randint(0, len(g) - 1), rnd.choice([["lwk", "#"], ["lwk", "t%d" % rnd.randint(0, 4), "#"], ["lwk", "?", "k0"]]))
     shaped = {'j:{"Cas":[1,2]}': {"gg": [], "lw": [], "cas": {"v": "j:1", "n": 2}},
               'j:{"Cas":["v1",2]}': {"gg": [], "lw": [], "cas": {"v": "v1", "n": 2}},
               'j:{"Cas":[{"x":1},0]}': {"gg": [], "lw": [], "cas": {"v": 'j:{"x":1}', "n": 0}},
